@@ -119,6 +119,9 @@ class Report(Part):
     def finish(self):
         known = self._known()
         wall = time.time() - self.t0
+        if self.counters.get("driver_crashes") and not any("driver crashed" in e for e in self.errors):
+            # a crash of the checking code itself is an error of the check (exit status 2), never a silent pass
+            self.errors.append("driver crashed in %d job(s): %s" % (self.counters["driver_crashes"], [n[-300:] for n in self.notes if "driver crash" in n][:2]))
         new = []
         reproduced = []
         for sig in sorted(self.violations):
